@@ -55,6 +55,7 @@ class Kernel:
             ex.solver = z3.Solver(); ex.solver.add(ex.base)
             try: out = ("ok", thunk())
             except M.Panic as e: out = ("panic", str(e))
+            except RecursionError: out = ("panic", "unbounded recursion (stack overflow in the real compiler)")
             except M.Infeasible: continue
             results.append((list(ex.pc), out))
         return results
